@@ -12,8 +12,8 @@ From Verif Require Import Lib.Base Lib.Sx Model.HttpApi Proofs.HttpApi.
 From Coq Require Import String.
 Open Scope Z_scope.
 
-Definition json_law (marshal : list (bytes * jv) -> bytes) (parse_view : bytes -> view) : Prop :=
-  forall m, forallb (fun kv => marshalable (snd kv)) m = true -> parse_view (marshal m) = view_of_members m.
+(* json_law marshal parse_view (Proofs/HttpApi.v) is the assumed law of encoding/json:
+     forall m, all members marshalable -> parse_view (marshal m) = view_of_members m *)
 
 (* the content types are the ones the property names (constants regenerated from http.go) *)
 Theorem c19_content_types :
@@ -56,11 +56,13 @@ Qed.
 
 (* plain errors: the error's own status (default 500), text/plain, the text and a newline;
    whatever the text is -- also when it looks like a success envelope -- the client half
-   reports an error as long as the status is not 2xx (fix 219c663; DESIGN 5 item 23). *)
+   reports an error as long as the declared status is an error or redirect status, 300 and up
+   (fix 219c663; DESIGN 5 item 23).  Declared statuses below 200 are outside the model: net/http
+   sends 1xx as an informational response followed by a final 200. *)
 Theorem c19_plain_error marshal parse_view g cb st msg :
   respond g cb (PPlain st msg) =
     {| status := match st with Some s => s | None => 500 end; ctyp := CtText; server := srv_name g; body := BText (msg ++ [10%N]) |}
-  /\ ((match st with Some s => s < 200 \/ 300 <= s | None => True end) ->
+  /\ ((match st with Some s => 300 <= s | None => True end) ->
       snd (api_request marshal parse_view (respond g [] (PPlain st msg))) = true).
 Proof. split; [reflexivity|exact (plain_client marshal parse_view g st msg)]. Qed.
 
@@ -74,7 +76,7 @@ Theorem c19_unmarshalable marshal parse_view g cb v merr :
 Proof. intros H. split; [exact (unmarshalable_resp g cb v merr H)|exact (unmarshalable_client marshal parse_view g v merr H)]. Qed.
 
 (* success and failure are never confused: every failure (unmarshalable value, non-zero code,
-   plain error whose status is not 2xx) is reported as an error, every marshalable value as
+   plain error whose status is 300 or more, or the default 500) is reported as an error, every marshalable value as
    code 0 without error. *)
 Theorem c19_never_confused marshal parse_view (L : json_law marshal parse_view) g p :
   (is_failure p -> snd (api_request marshal parse_view (respond g [] p)) = true) /\
@@ -102,6 +104,25 @@ Theorem c19_client_model marshal parse_view (L : json_law marshal parse_view) r 
   api_request marshal parse_view r = client (status r) (body_view (body r) tv).
 Proof. exact (api_request_abs marshal parse_view L r tv). Qed.
 
+(* WriteVersion (the version helper): for every version text the answer is the success envelope
+   of the object {extra, major, minor, revision, signature = Server, version = the text}; for a
+   text major.minor.revision-extra in plain decimal (each number fitting an int) the four
+   members are those numbers.  Errors of strconv.Atoi are dropped by the code: a part that is
+   not a number reads as 0 (examples in Proofs/HttpApi.v, ex_atoi). *)
+Theorem c19_version g cb version :
+  respond_version g cb version =
+    {| status := 200; ctyp := if is_nil cb then CtJson else CtJs; server := srv_name g;
+       body := BEnv cb (envelope g (version_value g version)) |}.
+Proof. exact (success_resp g cb (version_value g version) [] (version_marshalable g version)). Qed.
+
+Theorem c19_version_fields g ma mi re ex :
+  is_num ma -> is_num mi -> is_num re -> is_num ex ->
+  let version := ma ++ [46%N] ++ mi ++ [46%N] ++ re ++ [45%N] ++ ex in
+  version_value g version =
+    JObj [(k_extra, JInt (dval 0 ex)); (k_major, JInt (dval 0 ma)); (k_minor, JInt (dval 0 mi));
+          (k_revision, JInt (dval 0 re)); (k_signature, JStr (srv_name g)); (k_version, JStr version)].
+Proof. exact (version_fields g ma mi re ex). Qed.
+
 (* non-vacuity of the hypotheses *)
 Theorem c19_examples :
   marshalable ex_value = true /\ marshalable (JObj [([99]%N, JBad 0)]) = false /\
@@ -118,4 +139,6 @@ Print Assumptions c19_unmarshalable.
 Print Assumptions c19_never_confused.
 Print Assumptions c19_plain_2xx_refuted.
 Print Assumptions c19_client_model.
+Print Assumptions c19_version.
+Print Assumptions c19_version_fields.
 Print Assumptions c19_examples.
